@@ -30,6 +30,7 @@ TAGMENU = [('Artist', b'Artist'), ('MusicBrainzRecordingId', b'MUSICBRAINZ_TRACK
 class Params:
     def __init__(self, I, P):
         self.I = I; self.P = P; self.n = 0; self.rust = []        # rust: list of fn(model) -> literal text
+        self.symstr = False
     def fresh(self, bits):
         self.n += 1
         return self.I.ctx.fresh_bv('p%d' % self.n, bits)
@@ -38,7 +39,18 @@ class Params:
         self.rust.append(lambda m, v=v: str(m.eval(v, model_completion=True).as_long()))
         return v
     def string(self):
-        k = self.I.ctx.choose(len(STRS), 'str')
+        # the first string parameter of a command may also be a symbolic text of three bytes from {blank, tab, a-z}: leading and
+        # trailing blanks included (the quoting of other bytes is the subject of C06 and its recorded findings)
+        k = self.I.ctx.choose(len(STRS) + (0 if self.symstr else 1), 'str')
+        if k == len(STRS):
+            self.symstr = True
+            items = []
+            for i in range(3):
+                b = self.fresh(8)
+                self.I.ctx.assume(z3.Or(b == 32, b == 9, z3.And(z3.UGE(b, 97), z3.ULE(b, 122))))
+                items.append(b)
+            self.rust.append(lambda m, items=items: hexs(model_bytes(m, items)))
+            return SliceRef(items, 0, 3, 'str'), ('text', items)
         s = STRS[k]
         self.rust.append(lambda m, s=s: hexs(s))
         return str_ref(s), s
@@ -216,6 +228,9 @@ def b_count(I, P, p):
     return call(I, 'Count::new', [filt(I, P)]), [b'count', FILTER_ARG]
 def b_countgrouped(I, P, p):
     t, nm = p.tag()
+    if p.boolean():        # the other way to get a grouped count: from a filtered count
+        c = call(I, 'Count::group_by', [call(I, 'Count::new', [filt(I, P)]), t])
+        return c, [b'count', FILTER_ARG, b'group', nm]
     c = call(I, 'CountGrouped::new', [t]); exp = [b'count']
     if p.boolean():
         c = call(I, 'CountGrouped::filter', [c, filt(I, P)]); exp.append(FILTER_ARG)
@@ -405,6 +420,9 @@ def check_token(ctx, exp, parts):
             return 'argument %r instead of %r' % (parts, bytes(exp))
         return None
     kind = exp[0]
+    if kind == 'text':
+        c = seq_eq(list(parts), list(exp[1]))
+        return None if ctx.must(c) else ('argument bytes differs from the parameter text', c)
     if kind == 'num':
         t = num_term(parts, ctx)
         if t is None:
